@@ -21,7 +21,17 @@ TRUSTED = [
     'history groups: module-level state in pydl is only observable through sequences of calls in one process; the harness '
     'runs fixed interleavings over 4-5 trees/reductions per group (not all interleavings)',
     'harness/impl/c16_impl.py sets RUN2D, RUN1D, BOSS_SPECTRO_REDUX/SPECTRO_REDUX, SPECTRO_MATCH, PHOTO_RESOLVE per call',
-    'Coq stdlib ZArith, List, Permutation, Sorted, Lia (theorems closed under the global context)',
+    'storage types: C16/Typed.v peval models NumPy 2 (NEP 50) integer arithmetic of one-element arrays and Python ints (array (op) '
+    'Python int keeps the array type and wraps, OverflowError for a Python int that does not fit, np.array(x, dtype) wraps); tied to '
+    'NumPy by ~300 CTyped cases per run (the extracted expressions evaluated by NumPy itself, in and far outside the documented '
+    'ranges); not in the typed layer: znum / nper passed as NumPy scalars (promotion), the comparison platevec == np.uint64 scalar, '
+    'int(thisplate) for the file names',
+    'realistic-size trees (bigz): the Coq survey is given by the formulas the rows were written from (Model.gen_img / gen_col); '
+    'harness/props/c16.py checks every formula against the explicit rows before use',
+    'align=True: C16/AlignModel.v is the intended algorithm (integer pixel shift); the unrepaired code raises for every call whose '
+    'files differ in COEFF0, so the tie is the extracted rounding rule / COEFF0 updates (C16_source_align) plus a direct check of any '
+    'answer the code does return (align-grid calls; all of them with fixes/C16-align-float-pixshift.diff applied)',
+    'Coq stdlib ZArith, List, Permutation, Sorted, Lia, QArith/Qround (theorems closed under the global context)',
 ]
 ASSUMPTIONS = [
     'requests are valid: plate >= 0, 0 <= MJD < 2^16 (the key is (plate<<16)+mjd), 1 <= fiber <= number of rows; '
@@ -32,9 +42,13 @@ ASSUMPTIONS = [
     'COEFF0/COEFF1 are dyadic so that c0 + c1*pixel is exact in double precision',
     'the wavelength statement is read per spectrum: row i of loglam is COEFF0_i + COEFF1_i*pixel for the NAXIS1_i pixels '
     'of its own file and is zero-padded on the right like every other image (this is what readspec.pro does as well)',
-    "align=True (the only caller of spec_append with pixshift != 0) is outside: the property says 'unshifted' / 'no pixel "
-    "is shifted', which is false by design for an aligned call; only the no-op case (equal COEFF0/COEFF1 and pixel counts) is "
-    'exercised; spec_append itself is checked for every pixshift',
+    "align=True (the only caller of spec_append with pixshift != 0): the statement's 'no pixel is shifted' is read for aligned "
+    'calls as "not shifted relative to its own wavelength solution" and proved for the intended algorithm on a common grid '
+    '(C16_align_chain_unshifted); crashes of the unrepaired code (TypeError / IndexError) are counted in '
+    'coverage.align_grid_calls and NOT reported as violations (recorded defect outside the quantified conventions); a returned '
+    'answer that is not the aligned one IS reported; COEFF0 = 0 (no wavelength solution) and off-grid COEFF0 are outside',
+    'storage-type theorems hold for fibre 1..1000, DIMS0 and znum 1..1000, plate 0..99999, 0 <= MJD < 2^16, any integer storage '
+    'of the caller\'s arrays that holds the values',
     'SPECTRO_MATCH and PHOTO_RESOLVE must be set (readspec reads them unconditionally when no photoPlate file sits next '
     'to the spPlate file)',
 ]
@@ -63,14 +77,32 @@ From PV Require Import C16.Model. Open Scope Z_scope.
 
 # ---------------------------------------------------------------- synthetic files (deterministic from their meta)
 
-def code(uid, fib, h, pix):
+def code_small(uid, fib, h, pix):
     return ((uid * 1000 + fib) * 100 + h) * 100 + pix
+
+
+def code_big(uid, fib, h, pix):
+    """realistic-size trees: fibres up to 1000, fit numbers up to 134 (uid stays small, values stay below 2^31)"""
+    return ((uid * 2048 + fib) * 100 + h) * 256 + pix
+
+
+_FA_MEMO = {}
 
 
 def file_arrays(m):
     """meta -> explicit arrays.  Every value encodes (file uid, fiber, hdu/column, pixel/component)."""
+    if m.get('big'):
+        key = tuple(sorted((k, v) for k, v in m.items() if not isinstance(v, (list, dict))))
+        if key not in _FA_MEMO:
+            _FA_MEMO[key] = file_arrays_(m)
+        return _FA_MEMO[key]
+    return file_arrays_(m)
+
+
+def file_arrays_(m):
     uid, nfib, npix, nper = m['uid'], m['nfib'], m['npix'], m['nper']
     fibs = range(1, nfib + 1)
+    code = code_big if m.get('big') else code_small
     out = dict(m)
     out['imgs'] = [[[code(uid, f, h, p) for p in range(npix)] for f in fibs] for h in range(6)]
     out['plug'] = [
@@ -101,7 +133,39 @@ def zl(rows):
     return C.coq_list([C.coq_list([C.zlit(v) for v in r]) for r in rows])
 
 
+def formula_img(rows, nfib, width, g, per=None):
+    """Coq term for an image / column given by the formula g (a Python AND Gallina expression in f and p, or f and z);
+    the explicit rows the files are written from are checked against the formula here"""
+    if per is None:
+        want = [[eval(g, {'f': f, 'p': p}) for p in range(width)] for f in range(1, nfib + 1)]
+        term = '(gen_img %d %d (fun f p => %s))' % (nfib, width, g)
+    else:
+        want = [[eval(g, {'f': f, 'z': z})] for f in range(1, nfib + 1) for z in range(1, per + 1)]
+        term = '(gen_col %d %d (fun f z => %s))' % (nfib, per, g)
+    if want != rows:
+        raise RuntimeError('formula %s does not describe the rows written to the file' % g)
+    return term
+
+
 def file_term(fa):
+    if fa.get('big'):
+        # 1000 fibres x 134 fits: the Coq survey is given by the formulas the rows were written from (Model.gen_img,
+        # Model.gen_col), not as literals (a literal survey of this size takes coqc a minute to read)
+        uid, nfib, nper = fa['uid'], fa['nfib'], fa['nper']
+        cd = lambda h, v: '((%d * 2048 + f) * 100 + %d) * 256 + %s' % (uid, h, v)   # noqa: E731
+        imgs = [formula_img(fa['imgs'][h], nfib, fa['npix'], cd(h, 'p')) for h in range(6)]
+        assert [c['name'] for c in fa['plug']] == ['FIBERID', 'CODE', 'OBJTYPE', 'MAG', 'RA'] and not fa['photo']
+        tabs = [formula_img(fa['plug'][0]['rows'], nfib, 1, 'f'), formula_img(fa['plug'][1]['rows'], nfib, 1, cd(10, 'p')),
+                formula_img(fa['plug'][2]['rows'], nfib, 1, cd(11, 'p')), formula_img(fa['plug'][3]['rows'], nfib, 5, cd(12, 'p')),
+                formula_img(fa['plug'][4]['rows'], nfib, 1, cd(13, 'p'))]
+        assert [c['name'] for c in fa['zbest']] == ['FIBERID', 'Z', 'CLASS'] and [c['name'] for c in fa['zall']] == ['FIBERID', 'Z', 'CLASS']
+        zbest = [formula_img(fa['zbest'][0]['rows'], nfib, 1, 'f'), formula_img(fa['zbest'][1]['rows'], nfib, 1, cd(20, 'p')),
+                 formula_img(fa['zbest'][2]['rows'], nfib, 1, cd(21, 'p'))]
+        zall = [formula_img(fa['zall'][0]['rows'], nfib, None, 'f', per=nper), formula_img(fa['zall'][1]['rows'], nfib, None, cd(30, 'z'), per=nper),
+                formula_img(fa['zall'][2]['rows'], nfib, None, cd(31, 'z'), per=nper)]
+        return '(mkFile %s %s %d%%nat %s %s %s %s %s %s %s)' % (
+            C.zlit(fa['plate']), C.zlit(fa['mjd']), fa['npix'], C.zlit(fa['c0z']), C.zlit(fa['c1z']),
+            C.coq_list(imgs), C.coq_list(tabs), C.coq_list(zbest), C.zlit(nper), C.coq_list(zall))
     tabs = [c['rows'] for c in fa['plug']] + [c['rows'] for c in fa['photo']]
     return '(mkFile %s %s %d%%nat %s %s %s %s %s %s %s)' % (
         C.zlit(fa['plate']), C.zlit(fa['mjd']), fa['npix'], C.zlit(fa['c0z']), C.zlit(fa['c1z']),
@@ -150,6 +214,32 @@ def spec_py(files, reqs, znum):
             names.append('zans.' + c['name'])
             arrays.append([fa['zall'][ci]['rows'][(f - 1) * fa['nper'] + znum - 1] for fa, f in sel])
     return names, arrays
+
+
+def aligned_py(files, reqs):
+    """the aligned answer for wavelength solutions on a common grid: images of request i start at column
+    (COEFF0_i - min COEFF0)/COEFF1, loglam is min COEFF0 + COEFF1*column for every row; tables as in spec_py"""
+    sp = spec_py(files, reqs, None)
+    if sp is None:
+        return None
+    by = {}
+    for fa in files:
+        by.setdefault((fa['plate'], fa['mjd']), fa)
+    sel = [by[(p, m)] for p, m, _ in reqs]
+    c1 = sel[0]['c1z']
+    cmin = min(fa['c0z'] for fa in sel)
+    offs = [(fa['c0z'] - cmin) // c1 for fa in sel]
+    w = max(o + fa['npix'] for o, fa in zip(offs, sel))
+    names, arrays = sp
+    out = []
+    for n, a in zip(names, arrays):
+        if n in IMG_NAMES:
+            out.append([[0] * o + row[:fa['npix']] + [0] * (w - o - fa['npix']) for o, fa, row in zip(offs, sel, a)])
+        elif n == 'loglam':
+            out.append([[cmin + c1 * q for q in range(w)] for _ in sel])
+        else:
+            out.append(a)
+    return names, out
 
 
 def group_of(name):
@@ -228,7 +318,8 @@ def arg_term(x):
 
 
 def gen_scenario(rng, si, kind, root, thorough=False):
-    """kind in path | path5 (a plate number with five digits) | env | env-sdss | topdir | allfib-sdss | allfib-boss"""
+    """kind in path | path5 (a plate number with five digits) | env | env-sdss | topdir | allfib-sdss | allfib-boss |
+    bigz (realistic magnitudes: 1000 and 640 fibres, 134 fits per fibre in spZall, a five-digit plate, high fibre numbers)"""
     top = os.path.join(root, 's%03d' % si)
     run2d = '26' if kind == 'env-sdss' else RUN2D_BOSS
     run1d = rng.choice(['v5_7_0', 'r1'])
@@ -236,6 +327,9 @@ def gen_scenario(rng, si, kind, root, thorough=False):
     # plates and MJDs
     if kind == 'allfib-sdss':
         pm = [(rng.randint(1, 9999), 55024 if rng.random() < 0.5 else rng.randint(50000, 55023))]   # 640 fibres before MJD 55025
+    elif kind == 'bigz':
+        pm = [(rng.choice([rng.randint(10000, 15999), rng.randint(32768, 99999)]), rng.randint(55026, 65535)),
+              (rng.randint(3500, 9999), rng.randint(55026, 65535))]
     elif kind == 'allfib-boss':
         plates = rng.sample(range(3500, 9999), 2)
         pm = [(p, 55025 if (k == 1 and rng.random() < 0.5) else rng.randint(55026, 65535)) for k, p in enumerate(plates)]
@@ -255,7 +349,7 @@ def gen_scenario(rng, si, kind, root, thorough=False):
             if small not in plates:
                 plates[0] = small
         if kind == 'path5':
-            plates[-1] = rng.randint(10000, 15999)
+            plates[-1] = rng.choice([rng.randint(10000, 15999), rng.randint(32768, 99999)])   # beyond 15 / 16 bits too
         pm = []
         for p in plates:
             nm = rng.choice([1, 1, 2, 2, 3])
@@ -271,30 +365,41 @@ def gen_scenario(rng, si, kind, root, thorough=False):
         rng.shuffle(pm)
         pm = pm[:6]
     same_npix = rng.random() < 0.25
+    # wavelength solutions on a common grid (same COEFF1, COEFF0 differing by whole pixels): what align=True is for
+    grid = (not same_npix) and kind in ('path', 'env', 'topdir') and rng.random() < 0.5
+    grid_c0, grid_c1 = 3 * SCALE + rng.randint(SCALE // 2, SCALE // 2 + 200000), rng.randint(90, 125)
     npix0 = rng.randint(3, 9)
     has_zbest = True if kind == 'topdir' else rng.random() < 0.75
     has_zall = (kind in ('path', 'path5', 'env', 'env-sdss')) and rng.random() < 0.7
     has_photo = rng.random() < 0.3
     nper = rng.randint(2, 4)
+    if kind == 'bigz':
+        has_zbest, has_zall, has_photo, same_npix, nper = True, True, False, False, 134     # DIMS0 of real spZall files
     metas, decoys = [], []
     for k, (p, m) in enumerate(pm):
         nfib = 640 if kind == 'allfib-sdss' else rng.randint(3, 8)
         npix = 2 if kind == 'allfib-sdss' else (npix0 if same_npix else rng.randint(3, 9))
+        if kind == 'bigz':
+            nfib, npix = (1000, 2) if k == 0 else (640, 3)     # narrow images keep the files small
         meta = {'uid': k + 1, 'plate': p, 'mjd': m, 'nfib': nfib, 'npix': npix, 'nper': nper,
                 'c0z': 3 * SCALE + rng.randint(SCALE // 2, SCALE // 2 + 200000), 'c1z': rng.randint(90, 125),
                 'has_zbest': has_zbest, 'has_zall': has_zall, 'has_photo': has_photo}
+        if kind == 'bigz':
+            meta['big'] = True
         if same_npix and metas:      # equal pixel counts come with equal wavelength solutions (align=True is then a no-op)
             meta['c0z'], meta['c1z'] = metas[0]['c0z'], metas[0]['c1z']
+        if grid:
+            meta['c0z'], meta['c1z'] = grid_c0 + rng.choice([0, 0, 1, 2, 3, 5, 8]) * grid_c1, grid_c1
         metas.append(meta)
         d = dict(meta)
         d['uid'] = 100 + k + 1
         d['c0z'] = meta['c0z'] + 7
         decoys.append(d)
-    layout = 'path' if kind in ('path', 'path5', 'allfib-sdss', 'allfib-boss') else 'topdir'
+    layout = 'path' if kind in ('path', 'path5', 'allfib-sdss', 'allfib-boss', 'bigz') else 'topdir'
     trees = [{'top': os.path.join(top, 'main'), 'layout': layout, 'run2d': run2d, 'run1d': run1d, 'files': metas}]
     if kind == 'topdir':
         trees.append({'top': os.path.join(top, 'decoy'), 'layout': layout, 'run2d': run2d, 'run1d': run1d, 'files': decoys})
-    if kind == 'allfib-boss':
+    if kind in ('allfib-boss', 'bigz'):
         latest = {}
         for mt in metas:
             latest[mt['plate']] = max(latest.get(mt['plate'], 0), mt['mjd'])
@@ -412,6 +517,42 @@ def gen_scenario(rng, si, kind, root, thorough=False):
     def vec_call(tag, reqs, **k):
         add(tag, aarg([r[0] for r in reqs]), aarg([r[1] for r in reqs]), aarg([r[2] for r in reqs]), reqs, **k)
 
+    if kind == 'bigz':
+        # realistic magnitudes: the spZall row (fiber-1)*nper+znum-1 reaches 133 999, far beyond 16 bits (first above 32767:
+        # fibre 246 with nper = 134); fibres up to 1000; a five-digit plate.  Everything else as in the small trees.
+        def high_reqs(n):
+            out = []
+            for _ in range(n):
+                mt = rng.choice(metas)
+                t = rng.random()
+                f = (mt['nfib'] if t < 0.15 else rng.choice([244, 245, 246, 247, 490, 491]) if t < 0.35
+                     else rng.randint(246, mt['nfib']) if t < 0.85 else rng.randint(1, 245))
+                out.append((mt['plate'], mt['mjd'], f))
+            return out
+        for zn, tag in ((nper, 'nper'), (1, '1'), (rng.randint(2, nper - 1), 'mid')):
+            r = [(mt['plate'], mt['mjd'], mt['nfib']) for mt in metas] + high_reqs(rng.randint(4, 9))
+            rng.shuffle(r)
+            vec_call('big-znum=%s' % tag, r, znum=zn, feature='bigznum')
+        mt = metas[0]
+        fs = [mt['nfib'], 246, 245] + [rng.randint(246, mt['nfib']) for _ in range(4)]
+        rng.shuffle(fs)
+        add('big-znum-scalar-plate-vector-fiber-i2', sarg(mt['plate']), sarg(mt['mjd']), aarg(fs), [(mt['plate'], mt['mjd'], f) for f in fs],
+            znum=nper, feature='bigznum', store={'plate': 'int', 'mjd': 'np:i4', 'fiber': rng.choice(['i2', '>i2', 'nc:>i2', 'u2'])})
+        mt = metas[1]
+        add('big-znum-scalar-last-row', sarg(mt['plate']), sarg(mt['mjd']), sarg(mt['nfib']), [(mt['plate'], mt['mjd'], mt['nfib'])],
+            znum=nper, feature='bigznum')
+        r = high_reqs(rng.randint(5, 10))
+        add('big-znum-mjd-omitted', aarg([x[0] for x in r]), None, aarg([x[2] for x in r]), r, znum=rng.randint(1, nper),
+            pass_runs='env', feature='bigznum')
+        vec_call('big-plain-high-fibres', high_reqs(rng.randint(5, 10)), feature='bigplain')
+        # every fibre of both plates (fiber=None) together with znum: the fibre numbers come from np.arange(n)+1
+        mt = metas[1]      # the 640-fibre plate (rows up to 85 759): the list model makes Coq walk to every requested row
+        allr = [(mt['plate'], mt['mjd'], f) for f in range(1, mt['nfib'] + 1)]
+        add('big-allfib-znum', sarg(mt['plate']) if rng.random() < 0.5 else aarg([mt['plate']]), None, None, allr,
+            znum=rng.choice([nper, nper - 1, 2]), pass_runs='env', feature='bigznum-allfib', dtype='i4')
+        sc['calls'][-1]['allfib'] = True
+        return sc
+
     r = cover_reqs()
     while len(r) < 2:
         r.append(r[0])
@@ -425,6 +566,17 @@ def gen_scenario(rng, si, kind, root, thorough=False):
         while len(ra) < 2:
             ra.append(ra[0])
         vec_call('align-noop', ra, feature='align', extra_kw={'align': True})
+    if grid:
+        # align=True with COEFF0 values that differ by whole pixels.  The unrepaired code raises (float pixshift, see notes);
+        # a returned answer is checked directly: every spectrum at the column of its own wavelength (C16_align_chain_unshifted)
+        ra = cover_reqs()
+        while len(ra) < 2:
+            ra.append(ra[0])
+        vec_call('align-grid', ra, feature='align-grid', extra_kw={'align': True})
+        mt = rng.choice(metas)
+        fb = rng.randint(1, mt['nfib'])
+        add('align-grid-single', sarg(mt['plate']), sarg(mt['mjd']), sarg(fb), [(mt['plate'], mt['mjd'], fb)], feature='align-grid',
+            extra_kw={'align': True})
     # descending key order, each file once: grouping order is the exact reverse of request order
     r3 = sorted([(mt['plate'], mt['mjd'], rng.randint(1, mt['nfib'])) for mt in metas], key=lambda t: (-t[0], -t[1]))
     if len(r3) >= 2:
@@ -617,9 +769,9 @@ def gen_history(rng, si, root):
 
 def scenario_plan(ctx):
     if ctx.thorough:
-        kinds = ['path'] * 50 + ['path5'] * 8 + ['env'] * 30 + ['env-sdss'] * 15 + ['topdir'] * 20 + ['allfib-sdss'] * 2 + ['allfib-boss'] * 5
+        kinds = ['bigz'] * 3 + ['path'] * 50 + ['path5'] * 8 + ['env'] * 30 + ['env-sdss'] * 15 + ['topdir'] * 20 + ['allfib-sdss'] * 2 + ['allfib-boss'] * 5
     else:
-        kinds = ['path'] * 8 + ['path5'] * 2 + ['env'] * 4 + ['env-sdss'] * 2 + ['topdir'] * 4 + ['allfib-sdss'] + ['allfib-boss'] * 2
+        kinds = ['bigz'] + ['path'] * 8 + ['path5'] * 2 + ['env'] * 4 + ['env-sdss'] * 2 + ['topdir'] * 4 + ['allfib-sdss'] + ['allfib-boss'] * 2
     return kinds
 
 
@@ -744,7 +896,7 @@ def gen_specpath(ctx):
         run2d = rng.choice(['26', '103', '007', 'v5_7_0', 'v5_9_0', 'v5_13_2', '2x6', 'x26'])
         t = rng.random()
         if t < 0.2:
-            plate = sarg(rng.choice([rng.randint(0, 9), rng.randint(10, 999), rng.randint(1000, 9999), rng.randint(10000, 20000)]))
+            plate = sarg(rng.choice([rng.randint(0, 9), rng.randint(10, 999), rng.randint(1000, 9999), rng.randint(10000, 20000), rng.randint(32768, 99999)]))
         else:
             plate = aarg([rng.choice([rng.randint(0, 999), rng.randint(1000, 9999), rng.randint(10000, 20000)])
                           for _ in range(rng.randint(1, 4))])
@@ -805,6 +957,69 @@ def files_term(sc, cm, res):
         C.coq_list([C.coq_list([blit(x) for x in c]) for c in comps]))
 
 
+# ---------------------------------------------------------------- typed index expressions (storage types)
+
+TYPED_HEADER = '''From Coq Require Import ZArith List. Import ListNotations.
+From PV Require Import Lib.NumpyInt C16.Typed C16.Model. Open Scope Z_scope.
+'''
+ITY = {'I8': (-2**7, 2**7 - 1), 'U8': (0, 2**8 - 1), 'I16': (-2**15, 2**15 - 1), 'U16': (0, 2**16 - 1),
+       'I32': (-2**31, 2**31 - 1), 'U32': (0, 2**32 - 1), 'I64': (-2**63, 2**63 - 1), 'U64': (0, 2**64 - 1)}
+# variable: (is a Python int, documented range, out-of-range magnitudes that make the casts / products wrap)
+TYPED_VARS = [(False, (1, 1000), [32767, 32768, 40000, 70000, 2**31 + 5, 3 * 10**9]),        # 0 fiber
+              (True, (1, 1000), [134, 70000, 5 * 10**6, 2**31 - 1, 2**33]),                    # 1 nper
+              (True, (1, 1000), [134, 40000, 2**31 - 1, 2**31]),                               # 2 znum
+              (False, (0, 99999), [32768, 2**31 - 1, 2**31, 2**33 + 7]),                       # 3 plate
+              (False, (0, 65535), [65536, 2**20 + 3, 2**31 + 1]),                              # 4 mjd
+              (False, (0, 999), [32767, 2**31 - 1, 2**40]),                                    # 5 arange element
+              (True, (0, 65535), [65536, 2**31 - 1, 2**31, 2**40])]                            # 6 bigmjd
+
+
+def tree_vars(t, acc):
+    if t[0] in ('arr', 'int'):
+        acc.add(t[1])
+    elif t[0] == 'cast':
+        tree_vars(t[2], acc)
+    elif t[0] == 'bin':
+        tree_vars(t[2], acc)
+        tree_vars(t[3], acc)
+    return acc
+
+
+def gen_typed(ctx, closed):
+    """cases for every extracted typed expression: values inside the documented ranges in random storages, and values far
+    outside (wrapping casts, int32 products beyond 2^31, Python ints that do not fit -> OverflowError)"""
+    rng = ctx.rng
+    cases = []
+    for ex in closed:
+        used = tree_vars(ex['tree'], set())
+        for k in range(ctx.n(14, 60)):
+            wild = k >= 5
+            env = []
+            for i, (is_py, (lo, hi), far) in enumerate(TYPED_VARS):
+                if i in used and wild and rng.random() < 0.5:
+                    v = rng.choice(far) + rng.randint(-2, 2) * (rng.random() < 0.3)
+                else:
+                    v = rng.choice([lo, hi, rng.randint(lo, hi)]) if i in used else lo
+                if is_py:
+                    env.append([None, v])
+                else:
+                    env.append([rng.choice([t for t, (a, b) in ITY.items() if a <= v <= b]), v])
+            cases.append({'name': ex['name'], 'tree': ex['tree'], 'coq': ex['coq'], 'env': env})
+    return cases
+
+
+def typed_term(c, r):
+    env = C.coq_list(['(%s, %s)' % ('None' if t is None else 'Some %s' % t, C.zlit(v)) for t, v in c['env']])
+    if 'ok' in r:
+        t, v = r['ok']
+        exp = '(PVal %s %s)' % ('None' if t is None else '(Some %s)' % t, C.zlit(v))
+    elif r.get('err') == 'OverflowError':
+        exp = 'POverflow'
+    else:
+        exp = 'PUnmodelled'          # any other exception: never equal to a modelled result
+    return '(CTyped %s %s %s)' % (c['coq'], env, exp)
+
+
 # ---------------------------------------------------------------- correspondence
 
 def call_term(cm, res):
@@ -817,7 +1032,8 @@ def call_term(cm, res):
     else:
         exp = '(Some %s)' % C.coq_list([zl(a) for a in res['arrays']])
     if cm.get('allfib'):
-        return '(CReadAll sv pl %s %s %s %s %s %s)' % (C.zlit(cm['r2']), C.zlit(cm['r1']), arg_term(m['plate']), mjd, reqs, exp)
+        return '(CReadAll sv pl %s %s %s %s %s %s %s)' % (C.zlit(cm['r2']), C.zlit(cm['r1']), arg_term(m['plate']), mjd,
+                                                         C.optlit(cm['znum'], C.zlit), reqs, exp)
     return '(CRead sv %s %s %s %s %s %s)' % (arg_term(m['plate']), mjd, arg_term(m['fiber']),
                                             C.optlit(cm['znum'], C.zlit), reqs, exp)
 
@@ -855,6 +1071,14 @@ def correspond(ctx, proof_ok=True):
     app_cases = gen_append(ctx)
     sp_cases = gen_specpath(ctx)
     app_hist = gen_append_histories(ctx)
+    try:
+        _, tinfo = T.typed_extract(C.REPO)
+        typed_cases = gen_typed(ctx, tinfo['closed'])
+        ctx.coverage['typed_expressions'] = {'extracted': len(tinfo['closed']), 'types': tinfo['types'],
+                                             'fibervec_types': tinfo['fibervec_types']}
+    except Exception as e:  # noqa: BLE001 - unrecognised source: the typed tie is skipped, the proof side reports it
+        typed_cases = []
+        ctx.coverage['typed_expressions'] = {'extracted': 0, 'note': 'not recognised: %s' % e}
 
     def with_arrays(t):
         tt = dict(t)
@@ -890,6 +1114,7 @@ def correspond(ctx, proof_ok=True):
     payloads = [{'jobs': b} for b in batches] + [{'jobs': [{'kind': 'append', 'cases': ch}]} for ch in app_chunks]
     payloads[-1]['jobs'].append({'kind': 'specpath', 'cases': sp_cases})
     payloads[-2]['jobs'].append({'kind': 'append_history', 'histories': [{'pool': h['pool'], 'ops': h['ops']} for h in app_hist]})
+    payloads[-1]['jobs'].append({'kind': 'typed', 'cases': [{'tree': c['tree'], 'env': c['env']} for c in typed_cases]})
     outs = C.run_impl_parallel('c16_impl.py', payloads)
     ctx.coverage['pydl_file'] = outs[0]['pydl_file']
     results = [[None] * len(sc['calls']) for sc in scenarios]
@@ -897,6 +1122,7 @@ def correspond(ctx, proof_ok=True):
         for (k, j), r in zip(jobs[i][1], outs[b]['results'][pos]):
             results[k][j] = r
     sp_results = outs[-1]['results'][1]
+    typed_results = outs[-1]['results'][2]
     hist_results = outs[-2]['results'][1]
     app_results = [None] * len(app_cases)
     for ci, ch in enumerate(app_chunks):
@@ -926,11 +1152,14 @@ def correspond(ctx, proof_ok=True):
             cm['r2'], cm['r1'] = rc('2:' + sc['run2d']), rc('1:' + sc['run1d'])
         header = HEADER + 'Definition sv : survey := %s.\nDefinition pl : list plrow := %s.\n' % (
             C.coq_list([file_term(fa) for fa in files]), C.coq_list(pl_rows))
-        cc = C.CoqCases(ctx.work, header, 'run_cases', shard=1000, timeout=1500)
-        terms = [call_term(cm, res) for cm, res in zip(sc['calls'], results[k])]
+        # realistic-size trees: one coqc per call (the 1000-row answers take long to read; the survey itself is small)
+        cc = C.CoqCases(ctx.work, header, 'run_cases', shard=1 if sc['kind'] == 'bigz' else 1000, timeout=1500)
+        # align-grid calls have no Coq case (checked directly below): a trivially true placeholder keeps the indices aligned
+        terms = ['(CAppend [] [] 0 (Some []))' if cm['feature'] == 'align-grid' else call_term(cm, res)
+                 for cm, res in zip(sc['calls'], results[k])]
         # which spPlate files each successful call opened (path model)
         fidx = [j for j, (cm, res) in enumerate(zip(sc['calls'], results[k]))
-                if cm['reqs'] is not None and 'err' not in res and not res.get('bad')]
+                if cm['reqs'] is not None and 'err' not in res and not res.get('bad') and cm['feature'] != 'align-grid']
         fterms = [files_term(sc, sc['calls'][j], results[k][j]) for j in fidx]
         v = cc.run(terms + fterms, tag='scen%03d' % k)
         file_verdicts[k] = dict(zip(fidx, zip(v[len(terms):], fterms)))
@@ -950,6 +1179,8 @@ def correspond(ctx, proof_ok=True):
     hist_verdicts = cc.run(hist_terms, tag='apphist')
     sp_terms = [specpath_term(c, r) for c, r in zip(sp_cases, sp_results)]
     sp_verdicts = cc.run(sp_terms, tag='specpath')
+    typed_terms = [typed_term(c, r) for c, r in zip(typed_cases, typed_results)]
+    typed_verdicts = C.CoqCases(ctx.work, TYPED_HEADER, 'run_cases', shard=200).run(typed_terms, tag='typed') if typed_terms else []
     ctx.coverage['coq_eval_s'] = round(cc.coq_seconds + max(e[1] for e in evals), 1)
 
     # ---- decide
@@ -968,6 +1199,30 @@ def correspond(ctx, proof_ok=True):
         for cj, (cm, res, v, term) in enumerate(zip(sc['calls'], results[k], verdicts, terms)):
             n_calls += 1
             n_rows += len(cm['reqs'] or [])
+            if cm['feature'] == 'align-grid':
+                ag = ctx.coverage.setdefault('align_grid_calls', {})
+                if 'err' in res:
+                    # known defect outside the property (notes/C16.md: float pixshift -> TypeError, allcoeff1[1] -> IndexError)
+                    ag['impl=' + res['err']] = ag.get('impl=' + res['err'], 0) + 1
+                    continue
+                want = aligned_py([file_arrays(m) for m in sc['metas']], cm['reqs'])
+                good = want is not None and want[0] == res['names'] and want[1] == res['arrays']
+                ag['returned-' + ('aligned' if good else 'WRONG')] = ag.get('returned-' + ('aligned' if good else 'WRONG'), 0) + 1
+                if not good:
+                    spec_vio += 1
+                    diff = sorted(set(group_of(n) for n, a, b in zip(want[0], want[1], res['arrays']) if a != b)) if want and want[0] == res['names'] else ['outputs']
+                    sig = 'C16:readspec:std:align-grid:diff=%s:property' % '+'.join(diff)
+                    if sig not in seen:
+                        seen.add(sig)
+                        ctx.violation(sig, 'readspec(align=True) on wavelength solutions differing by whole pixels: a spectrum is not at the column of '
+                                      'its own wavelength (or rows/loglam differ) on %s' % cm['tag'],
+                                      {'kind': 'failing-input', 'what': 'readspec', 'scenario': {'kind': sc['kind'], 'si': sc['si'], 'run2d': sc['run2d'],
+                                       'run1d': sc['run1d'], 'metas': sc['metas'], 'trees': sc['trees']}, 'call': cm['call'], 'requests': cm['reqs'],
+                                       'znum': None, 'tag': cm['tag'], 'expected_aligned': {'names': want[0][:7], 'arrays': want[1][:7]} if want else None,
+                                       'impl_result': {'names': res['names'][:7], 'arrays': res['arrays'][:7]},
+                                       'meaning': 'images of request i must start at column (COEFF0_i - min COEFF0)/COEFF1, zeros elsewhere; loglam = '
+                                                  'min COEFF0 + COEFF1*column (units 2^-20)'}, True)
+                continue
             outcome = classify(sc, cm, res)
             key = '%s:%s:%s' % (sc['kind'], cm['tag'].split('=')[0], 'ok' if outcome == 'same' else outcome.split('=')[0] + ('=' + res['err'] if 'err' in res else ''))
             dist[key] = dist.get(key, 0) + 1
@@ -1024,7 +1279,8 @@ def correspond(ctx, proof_ok=True):
                    'call': cm['call'], 'requests': cm['reqs'], 'znum': cm['znum'], 'tag': cm['tag'],
                    'impl_result': res if 'err' in res else {'names': res['names'], 'arrays': res['arrays'][:1] + res['arrays'][7:], 'bad': res['bad']},
                    'outcome': outcome, 'verdict': v, 'problems': problems,
-                   'encoding': 'value = ((uid*1000 + fiber)*100 + hdu_or_column)*100 + pixel_or_component; loglam in units of 2^-20; '
+                   'encoding': 'value = ((uid*1000 + fiber)*100 + hdu_or_column)*100 + pixel_or_component (realistic-size trees, kind bigz: '
+                               '((uid*2048 + fiber)*100 + hdu_or_column)*256 + pixel_or_fit_number); loglam in units of 2^-20; '
                                'decoy tree (topdir scenarios) uses uid+100',
                    'meaning': 'verdict bit 2: the returned arrays differ from the request-by-request specification spec_readspec '
                               '(or the call raised although every request is valid); bit 1: the Coq model differs from the implementation'}
@@ -1069,6 +1325,23 @@ def correspond(ctx, proof_ok=True):
         seen.add(sig)
         ctx.violation(sig, 'spec_path() differs from the path model', {'kind': 'broken-correspondence', 'item': 'C16.Model.spec_path_model',
                                                                       'case': c, 'impl_result': r, 'coq_case': term}, False)
+    # ---- typed index expressions: NumPy's own evaluation against Typed.peval (semantics of the storage-type layer)
+    typed_out = {}
+    for c, r, v, term in zip(typed_cases, typed_results, typed_verdicts, typed_terms):
+        kind = 'overflow' if r.get('err') == 'OverflowError' else ('error' if 'err' in r else
+               ('inrange' if all(lo <= val <= hi for (_, (lo, hi), _), (_, val) in zip(TYPED_VARS, c['env'])) else 'wrap-or-far'))
+        typed_out['%s:%s' % (c['name'], kind)] = typed_out.get('%s:%s' % (c['name'], kind), 0) + 1
+        if v == 0:
+            continue
+        model_dis += 1
+        sig = 'C16:typed:%s:%s:model' % (c['name'], ('impl=' + r['err']) if 'err' in r else 'diff')
+        if sig in seen:
+            continue
+        seen.add(sig)
+        ctx.violation(sig, 'NumPy evaluates a typed index expression of readspec differently from C16.Typed.peval',
+                      {'kind': 'broken-correspondence', 'item': 'C16.Typed.peval', 'expression': c['coq'], 'env': c['env'],
+                       'numpy_result': r, 'coq_case': term}, False)
+    ctx.coverage['typed_cases_by_expression_and_kind'] = typed_out
     app_bad = 0
     for c, r, v, term in zip(app_cases, app_results, app_verdicts, app_terms):
         extra = []
@@ -1135,7 +1408,8 @@ def correspond(ctx, proof_ok=True):
                       bool(v & 2 or extra))
 
     ctx.coverage.update({
-        'evaluations': n_calls + len(app_cases) + len(sp_cases) + len(hist_ops),
+        'evaluations': n_calls + len(app_cases) + len(sp_cases) + len(hist_ops) + len(typed_cases),
+        'typed_expression_cases': len(typed_cases),
         'spec_append_history_ops': len(hist_ops), 'spec_append_histories': len(app_hist),
         'spec_path_calls': len(sp_cases), 'opened_file_lists_compared': n_files,
         'distinct_nontrivial': len(set(t for e in evals for t in e[2])) + len(set(app_terms)) + len(set(sp_terms)),
@@ -1211,7 +1485,10 @@ def replay(ctx, rep):
             flag = '' if exp is None or exp == a else '   <-- differs from specification %s' % ([r[0] for r in exp],)
             if flag or n in ('flux', 'plugmap.FIBERID', 'zans.FIBERID'):
                 print('impl   : %-16s first column %s%s' % (n, [r[0] if r else None for r in a], flag))
-    print('(value = ((uid*1000 + fiber)*100 + hdu)*100 + pixel)')
+    if any(m.get('big') for m in sc['trees'][0]['files']):
+        print('(realistic-size tree: value = ((uid*2048 + fiber)*100 + hdu_or_column)*256 + pixel_or_fit_number)')
+    else:
+        print('(value = ((uid*1000 + fiber)*100 + hdu)*100 + pixel)')
     return 0
 
 
